@@ -945,6 +945,11 @@ class ModelMetaClass(type):
         partition_keys = OrderedDict(k for k in primary_keys.items() if k[1].partition_key)
         clustering_keys = OrderedDict(k for k in primary_keys.items() if not k[1].partition_key)
 
+        # a re-declared inherited key used up a counter value before taking over the
+        # inherited position: number the key components by their final position
+        for i, col in enumerate(partition_keys.values()):
+            col._partition_key_index = i
+
         if attrs.get('__compute_routing_key__', True):
             key_cols = [c for c in partition_keys.values()]
             partition_key_index = dict((col.db_field_name, col._partition_key_index) for col in key_cols)
